@@ -382,7 +382,11 @@ def _defaults_at_definition(v: Callable, lm: ast.Lambda) -> bool:
         if a.arg in kw_defaults and d is not None
     ]
     if names_now is not None and any(
-        callable(value) and isinstance(d, ast.Name) and names_now.get(d.id, value) is not value
+        callable(value)
+        and isinstance(d, ast.Name)
+        # (a name that means nothing where the function lives - a loop variable, a parameter
+        # of the factory that made it, a global deleted since - is no way to send it either)
+        and (d.id not in names_now or names_now[d.id] is not value)
         for value, d in written_defaults
     ):
         return False
